@@ -22,10 +22,10 @@ ASSUMPTIONS = ['simulated transport and OS layer (DESIGN.md 2.1) are faithful; m
                'an XML-RPC failure must end the episode of the peer within two local ticks (notification transit)']
 FLOORS = {'quick': {'completeness_evaluations': 3000, 'silent_peers_at_timer': 40, 'accuracy_evaluations': 80,
                     'invalidations': 100, 'lost_processes_checked': 40, 'peer_state_changes': 3000,
-                    'ticks_delivered': 10000, 'quick_restarts_seen': 100},
+                    'ticks_delivered': 10000, 'quick_restarts_seen': 100, 'host_reboots': 60},
           'thorough': {'completeness_evaluations': 60000, 'silent_peers_at_timer': 1200, 'accuracy_evaluations': 1600,
                        'invalidations': 2000, 'lost_processes_checked': 800, 'peer_state_changes': 60000,
-                       'ticks_delivered': 200000, 'quick_restarts_seen': 1500}}
+                       'ticks_delivered': 200000, 'quick_restarts_seen': 1500, 'host_reboots': 1200}}
 COUNT = {'quick': 560, 'thorough': 9000}
 BUDGET_S = {'quick': 55, 'thorough': 540}
 
@@ -53,7 +53,7 @@ QUICK_KNOBS = {'n_min': 3, 'n_max': 4, 'late_p': 0.0, 'trigger_p': 0.0, 'profile
                                  {'kind': 'crash', 'same_target': True, 'gap_ticks': [1, 2, 3]},
                                  {'kind': 'crash'}]],
                'apps': {'n_apps': (1, 2), 'n_progs': (1, 3), 'startsecs': (0, 4)}}
-QUICK_COUNT = {'quick': 120, 'thorough': 2000}
+QUICK_COUNT = {'quick': 100, 'thorough': 2000}
 
 
 # and a family where the HOST of a peer reboots (instances alone on their node): the monotonic clock of the new
@@ -63,7 +63,7 @@ REBOOT_KNOBS = {'n_min': 3, 'n_max': 4, 'max_nodes': 4, 'late_p': 0.0, 'trigger_
                                  [{'kind': 'restart', 'down': (0.5, 8.0), 'gap_ticks': [2, 4]}],
                                  [{'kind': 'restart', 'down': (25.0, 60.0), 'gap_ticks': [2, 4]}, {'kind': 'crash'}]],
                 'apps': {'n_apps': (1, 2), 'n_progs': (1, 3), 'startsecs': (0, 4)}}
-REBOOT_COUNT = {'quick': 100, 'thorough': 2000}
+REBOOT_COUNT = {'quick': 70, 'thorough': 2000}
 
 
 def plan(tier, seed):
